@@ -141,7 +141,8 @@ RLExpect(c) ==
     [] op = "rl_astype" -> IF c[3] = <<>> \/ \E i \in DOMAIN c[3] : ~CastOK(c[2], c[4], c[3][i]) THEN R_UNSPEC
                            ELSE <<"rl", c[4], [i \in DOMAIN c[3] |-> Cast(c[2], c[4], c[3][i])], FALSE>>
     \* the sum of a 64-bit array whose values are given as limbs: exact modulo 2^64, in the array's own dtype
-    [] op = "rl_wsum" -> IF c[3] = <<>> \/ c[2] \notin {"i8", "u8"} \/ ~WideFits(c[3], c[2]) THEN R_UNSPEC ELSE <<"scalar", c[2], WideSum(c[3])>>
+    [] op = "rl_wsum" -> IF c[3] = <<>> \/ c[2] \notin {"i8", "u8", "i4", "u4", "i2", "u2"} \/ ~WideFits(c[3], c[2]) THEN R_UNSPEC
+                         ELSE <<"scalar", ReduceType("add", c[2]), WideSum(c[3])>>    \* narrower dtypes: numpy adds them up in 64 bits
     \* np.histogram(rla) = np.histogram(decoded array): the property defines the expectation as numpy's own answer on the
     \* decoded array, so the harness evaluates both sides with numpy and the specification demands agreement
     [] op = "rl_hist" -> IF c[3] = <<>> THEN R_UNSPEC ELSE <<"bool", 1>>
